@@ -83,10 +83,14 @@ func tag(exec, h uint64) uint64 {
 	return exec<<44 | low
 }
 
-func ParamTok(exec uint64, i int) uint64       { return tag(exec, Mix(uint64(i)+0x5151)) }
-func SentinelTok(exec uint64, i int) uint64    { return tag(exec, Mix(uint64(i)+0x7E57)) }
-func FallbackTok(exec uint64, fn, i int) uint64 { return tag(exec, Mix(uint64(fn)*131+uint64(i)+0xFB00)) }
-func ElemTok(exec uint64, slot, i int) uint64  { return tag(exec, Mix(uint64(slot)*100003+uint64(i)+0xE1E)) }
+func ParamTok(exec uint64, i int) uint64    { return tag(exec, Mix(uint64(i)+0x5151)) }
+func SentinelTok(exec uint64, i int) uint64 { return tag(exec, Mix(uint64(i)+0x7E57)) }
+func FallbackTok(exec uint64, fn, i int) uint64 {
+	return tag(exec, Mix(uint64(fn)*131+uint64(i)+0xFB00))
+}
+func ElemTok(exec uint64, slot, i int) uint64 {
+	return tag(exec, Mix(uint64(slot)*100003+uint64(i)+0xE1E))
+}
 
 // FnInfos derives the per-function facts Call needs.
 func (p *Program) FnInfos() map[int]FnInfo {
